@@ -39,7 +39,7 @@ def tset(xs):
 def cfg_gen(esc, kinds, invs, alphabet=NARROW, maxlen=0, qword=("a", "X", "_"), qfirst=None, qsegmax=0,
             qentrytok=("a", "-", "/"), qentrymax=3, palphabet=PALPHA, pmaxlen=0, pmaxpairs=0,
             resqrt=("PHYSICS", "ANY"), resqroles=("r", "any"), resentries=("e",), rndmaxparts=2,
-            resbackends=("file", "consul")):
+            resbackends=("file", "consul"), fldshapes=(0, 1, 2, 4, 5, 7), fldqueries=("Pr",)):
     return """SPECIFICATION Spec
 CONSTANTS
   AutoEscape = %s
@@ -60,12 +60,14 @@ CONSTANTS
   ResQRoles = %s
   ResEntries = %s
   ResBackends = %s
+  FldShapes = {%s}
+  FldQueries = %s
   RndMaxParts = %d
 INVARIANTS DumpInv %s
 CHECK_DEADLOCK FALSE
 """ % ("TRUE" if esc else "FALSE", tset(kinds), tset(alphabet), maxlen, tset(qword), tset(qfirst or qword), qsegmax,
        tset(qentrytok), qentrymax, tset(palphabet), pmaxlen, pmaxpairs, tset(resqrt), tset(resqroles),
-       tset(resentries), tset(resbackends), rndmaxparts, invs)
+       tset(resentries), tset(resbackends), ", ".join(map(str, fldshapes)), tset(fldqueries), rndmaxparts, invs)
 
 
 def cfg_edit(esc, maxedits, maxseg):
@@ -230,6 +232,8 @@ def run(ctx):
         "words PHYSICS, ANY, process, true; a token sequence is judged by the characters it spells; the run type names, the "
         "ParseBool strings and the key 'process' the model uses are compared with the real ones (Table line of the trace); "
         "non-ASCII characters are transliterated in recorded strings",
+        "entry keys with a folder part: the query c/RT/role/x/y over stores whose four candidate levels each have one of 8 shapes "
+        "(x absent / plain entry / folder; y absent / beside / inside), on the file backend and on harness/fakeconsul",
         "existence is the file backend's Exists on a generated YAML (flow syntax) tree o2/components/<component>/<RUNTYPE>/<role>/"
         "<entry>; the four candidates exist as entries (strings), never as folders",
         "template variables have identifier names that are not utility names; entry content = literals, {{ var }} and one "
@@ -261,7 +265,7 @@ def run(ctx):
         jobs = [
             ("str-wide+near", cfg_gen(esc, ["str", "near"], INV_STR, alphabet=WIDE, maxlen=4)),
             ("str-exhaustive+catalogue", cfg_gen(esc, ["str"], INV_STR, alphabet=NARROW, maxlen=5, qsegmax=1)),
-            ("sweep+par+res+rnd-cases", cfg_gen(esc, ["sweep", "par", "res", "rnd"], INV_STR + " " + INV_PAR + " " + INV_RES,
+            ("sweep+par+res+fld+rnd-cases", cfg_gen(esc, ["sweep", "par", "res", "fld", "rnd"], INV_STR + " " + INV_PAR + " " + INV_RES,
                                                 pmaxlen=4, pmaxpairs=2,
                                           rndmaxparts=2)),              # every rendering case, whatever the property says
             ("rnd", cfg_gen(esc, ["rnd"], INV_RND, rndmaxparts=2)),      # stops at a counterexample when AutoEscape
@@ -278,8 +282,8 @@ def run(ctx):
             ("str-near+sweep", cfg_gen(esc, ["near", "sweep"], INV_STR + " " + INV_PAR)),
             ("par-exhaustive", cfg_gen(esc, ["par"], INV_PAR, palphabet=[t for t in PALPHA if t != "t"], pmaxlen=6)),
             ("par-catalogue", cfg_gen(esc, ["par"], INV_PAR, pmaxpairs=3)),
-            ("res", cfg_gen(esc, ["res"], INV_RES, resqrt=("PHYSICS", "TECHNICAL", "ANY"), resqroles=("r", "s", "any"),
-                            resentries=("e", "sub/e"))),
+            ("res+fld", cfg_gen(esc, ["res", "fld"], INV_RES, resqrt=("PHYSICS", "TECHNICAL", "ANY"), resqroles=("r", "s", "any"),
+                                resentries=("e", "sub/e"), fldshapes=range(8), fldqueries=("Pr", "Aa"))),
             ("rnd-cases", cfg_gen(esc, ["rnd"], "", rndmaxparts=3)),
             ("rnd", cfg_gen(esc, ["rnd"], INV_RND, rndmaxparts=3)),
         ]
@@ -606,7 +610,7 @@ def execute(ctx, esc, cases, origin, nproc, predicted=(), scenarios=(), spredict
         inv, scn, detail = v[1], v[2], v[4]
         flagged.add((inv, scn))
         c = cases[scn - 1]
-        api = detail[0] if c["k"] in ("str", "par") else {"res": "ResolveComponentQuery", "rnd": "GetAndProcessComponentConfiguration"}[c["k"]]
+        api = detail[0] if c["k"] in ("str", "par") else {"res": "ResolveComponentQuery", "fld": "ResolveComponentQuery", "rnd": "GetAndProcessComponentConfiguration"}[c["k"]]
         cause = detail[0] if c["k"] == "rnd" else "-"
         groups.setdefault((inv, api, cause), []).append(scn)
     for (inv, api, cause), scns in sorted(groups.items()):
